@@ -45,6 +45,13 @@ class _FakeSocketModule(object):
     return [(_socket.AF_INET, _socket.SOCK_STREAM, 6, '', (host, int(port)))]
 
 
+def _spin(msg):
+  from vf.world import World, SpinBreak
+  if World.current is not None and World.current.spin is None:
+    World.current.spin = msg
+  return SpinBreak(msg)
+
+
 class FakeSocket(object):
   def __init__(self, net, family=None, type=None):
     self.net = net
@@ -54,6 +61,8 @@ class FakeSocket(object):
     self.connected = False
     self.eof = False
     self.err = None
+    self.err_reported = False
+    self.spins = 0
     self.server = None
     self.cid = None
     self.addr = None
@@ -94,6 +103,14 @@ class FakeSocket(object):
     if self.closed:
       raise _socket.error(errno.EBADF, 'Bad file descriptor')
     if not self.rx and self.err is not None:
+      if self.err_reported:
+        # like a Linux TCP socket: the pending error is reported to one call; the socket is then simply at its end
+        self.spins += 1
+        if self.spins > 1000:
+          raise _spin('recv called %d times on connection %d after it reported %r' % (self.spins, self.nth, self.err))
+        self.eof = True
+        return
+      self.err_reported = True
       raise self.err
 
   def recv(self, sz):
@@ -110,7 +127,10 @@ class FakeSocket(object):
       kind = kind[:-len('_on_data')]
     if kind == 'raise':
       self.net.record('fault', self, ('recv', idx, kind))
-      self.err = _socket.error(errno.ECONNRESET, 'Connection reset by peer (injected)')
+      code = getattr(self.net, 'fault_errno', None) or errno.ECONNRESET
+      # (OSError maps ETIMEDOUT to the builtin TimeoutError, which is also socket.timeout)
+      self.err = _socket.error(code, '%s (injected)' % os.strerror(code))
+      self.err_reported = True
       raise self.err
     if kind == 'eof':
       self.net.record('fault', self, ('recv', idx, kind))
@@ -119,6 +139,9 @@ class FakeSocket(object):
       return b''
     self._wait_rx()
     if not self.rx:
+      self.spins += 1
+      if self.spins > 1000:
+        raise _spin('recv called %d times on connection %d after it reached its end' % (self.spins, self.nth))
       return b''
     n = min(sz, self.net.chunk(self, len(self.rx), sz))
     n = max(1, n)
